@@ -362,10 +362,17 @@ static void do_exc(void) {
          session's node in the send queue (other timers of the client - lg_crcv expiry, the
          shadow session's retransmissions - are not inputs of the model); with nothing queued,
          let whatever timer there is pass */
-      coap_tick_t due = 0;
-      if (queue_node(cs, &due)) {
-        if (due > vn_now) vn_now = due;
-        vn_prepare(cli);
+      coap_queue_t *q0 = queue_node(cs, NULL);
+      if (q0) {
+        /* follow the waits the library reports until this session's node has fired (its
+           retransmit count changed or it left the queue); no arithmetic on queue times here */
+        unsigned cnt0 = q0->retransmit_cnt;
+        for (int g = 0; g < 64; g++) {
+          unsigned w = vn_prepare(cli);
+          coap_queue_t *q1 = queue_node(cs, NULL);
+          if (q1 != q0 || q1->retransmit_cnt != cnt0 || w == 0) break;
+          vn_advance(w);
+        }
       } else {
         unsigned w = vn_prepare(cli);
         if (w > 0) { vn_advance(w); vn_prepare(cli); }
